@@ -181,6 +181,18 @@ def _corrected(lines, touched: set, failed: set):
         prev_ind, prev_text = ind, l[1]
     if D.is_container(prev_text):
         return None, "empty-body-opener"
+    # a Block inside an Alarm body re-acquires the block lock on every invocation and can starve a Block of the main flow
+    # (lock fairness is not this property): such methods are not judged
+    stack: list = []
+    for l in kept:
+        ind, rest = D.split_indent(l[1])
+        if rest == "" or rest.startswith("#"):
+            continue
+        while stack and stack[-1][0] >= ind:
+            stack.pop()
+        if rest.startswith("Block:") and any(t.startswith("Alarm") for _, t in stack):
+            return None, "block-inside-alarm"
+        stack.append((ind, rest))
     # a Block that is never ended keeps the block lock for good: every Block needs an End block(s) among its direct children
     for i, l in enumerate(kept):
         ind, rest = D.split_indent(l[1])
